@@ -15,7 +15,7 @@ import ast
 import os
 import textwrap
 
-SRC = '/repo/src/rsatoolbox'
+SRC = os.path.join(os.environ.get('VERIF_REPO', '/repo'), 'src', 'rsatoolbox')
 
 
 class Unsupported(Exception):
